@@ -338,7 +338,7 @@ func (sp *SAMLServiceProvider) SigningContext() *dsig.SigningContext {
 	defer sp.signingContextMu.Unlock()
 
 	signing := sp.spSigningKeyStoreOverride
-	if signing == nil {
+	if signing == nil && sp.SPSigningKeyStore == nil {
 		signing = sp.spKeyStoreOverride
 	}
 	var err error
